@@ -10,6 +10,7 @@ THEMES = {
  'long': "a slip that only shows on LONGER or RARER inputs than a short exhaustive enumeration would reach: e.g. words of six or more characters, a composition with three or more conjuncts, a specific dictionary / auto-correct / suffix / emoji table entry or a class of entries (entries with a particular character, length, or shape), the ninth-candidate cap, a second or third match where the first behaves, byte-index versus character-index arithmetic that only differs for particular code points",
  'seq': "a slip that needs a MULTI-STEP history to show: state left behind by an earlier word, commit, backspace, ctrl-backspace, finish or update-engine that changes what a LATER, innocent-looking step returns; at least three API calls apart; ordinary single-word use from a new context must look right",
  'pair': "TWO cooperating edits at different sites (different functions, preferably different files) that each look harmless, or even like a clean-up, on their own, and only together break the property, under a particular option combination or input class",
+ 'free': "a slip of a KIND that is not yet in the list of existing changes below (read the list first): pick the code path, data shape or call pattern that none of them touches - e.g. the interaction of two features that are each covered alone, an assumption about data files that holds for almost every entry, arithmetic on lengths or indices of mixed ASCII / Bengali / emoji text, the behaviour at exactly a boundary (first key, ninth candidate, empty part, last table entry)",
  'opt': "a slip in how OPTIONS reach the code: an option read at the wrong moment (creation vs. each call), combined wrongly with another option, honoured for one method (phonetic / fixed) or one code path (list vs. single string, first key vs. later keys, after a backspace) only; the default configuration must look right",
 }
 existing = []
